@@ -154,7 +154,17 @@ class Ctx:
         exprs = [e for e in exprs if not z3.is_true(e)]
         if any(z3.is_false(e) for e in exprs):
             return "unsat", None, "syntactic"
-        full = exprs + (self.axioms_for(exprs) if with_axioms else [])
+        axioms = self.axioms_for(exprs) if with_axioms else []
+        if axioms:
+            # stage 0: without the definitions of the fresh variables (pure abstraction).  unsat here is unsat with them.
+            res, s = self._run("nlsat", exprs, min(timeout, 2000))
+            if res == "unsat":
+                return res, s, "nlsat/no-axioms"
+            if res == "unknown":
+                res, s = self._run("smt", exprs, min(timeout, 2000))
+                if res == "unsat":
+                    return res, s, "smt/no-axioms"
+        full = exprs + axioms
         plan = [("nlsat", min(timeout, 2500)), ("smt", timeout), ("nlsat", timeout)]
         if timeout <= 2500:
             plan = [("nlsat", timeout), ("smt", timeout)]
@@ -303,7 +313,8 @@ class Ctx:
 
     def _call_concrete(self, name, args):
         if name in self.concrete_funcs:
-            return float(self.concrete_funcs[name](*args))
+            r = self.concrete_funcs[name](*args)
+            return bool(r) if isinstance(r, (bool, _np.bool_)) else float(r)
         base = {
             "log": lambda x: math.log(x) if x > 0 else (float("-inf") if x == 0 else float("nan")),
             "atan2": math.atan2,
@@ -622,6 +633,21 @@ def ufcall(name, args, dom=None):
     """abstracted (uninterpreted) function application name(args) -> S"""
     a0 = args[0] if isinstance(args[0], S) else S(toz(args[0]))
     return a0._uf(name, *args[1:], dom=dom)
+
+
+def ufpred(name, args):
+    """abstracted (uninterpreted) predicate application name(args) -> SB"""
+    zargs = [toz(a) for a in args]
+    sargs = [z3.simplify(a) for a in zargs]
+    key = (name, tuple(a.get_id() for a in sargs))
+    if key not in CTX.uf_tab:
+        CTX.nfresh += 1
+        v = z3.Bool(f"{name}!{CTX.nfresh}")
+        CTX.uf_tab[key] = v
+        CTX.keep.extend(sargs)
+        CTX.uf_apps.setdefault(name, []).append((v, zargs))
+        CTX.uf_args[v.get_id()] = (name, zargs)
+    return SB(CTX.uf_tab[key])
 
 
 def sym(name):
